@@ -50,15 +50,21 @@ class Ctx:
     def ska(self):
         return self.bins['rel']
 
-    def sh(self, *args, stdin=None, env=None, timeout=CALL_TIMEOUT, text=True, cwd=None):
+    def sh(self, *args, stdin=None, env=None, timeout=CALL_TIMEOUT, text=True, cwd=None, mem_gb=None):
         self.calls += 1
+        pre = None
+        if mem_gb:
+            def pre():
+                import resource
+                lim = int(mem_gb * (1 << 30))
+                resource.setrlimit(resource.RLIMIT_AS, (lim, lim))
         e = dict(os.environ)
         e['RUST_BACKTRACE'] = '0'
         if env:
             e.update(env)
         try:
             return subprocess.run([str(a) for a in args], capture_output=True, text=text, input=stdin,
-                                  env=e, timeout=timeout, cwd=cwd or self.dir)
+                                  env=e, timeout=timeout, cwd=cwd or self.dir, preexec_fn=pre)
         except subprocess.TimeoutExpired:
             raise Inconclusive('timeout after %ds: %s' % (timeout, ' '.join(str(a) for a in args)[:200]))
 
@@ -162,6 +168,18 @@ def write_replay(pid, desc, viol, tier, seed):
     with open(os.path.join(d, 'case.json'), 'w') as f:
         json.dump({'property': pid, 'tier': tier, 'seed': seed, 'desc': desc, 'signature': viol['signature'],
                    'what': viol['what'], 'repo': build.REPO}, f, indent=1, default=str)
+    # input files the case depends on are copied next to it, and the description is pointed at the copies
+    if isinstance(desc, dict):
+        for key, val in list(desc.items()):
+            if isinstance(val, str) and val.startswith('/') and os.path.isfile(val) and key.endswith('_file'):
+                dst = os.path.join(d, os.path.basename(val))
+                if not os.path.exists(dst):
+                    shutil.copy(val, dst)
+                desc = dict(desc)
+                desc[key] = dst
+        with open(os.path.join(d, 'case.json'), 'w') as f:
+            json.dump({'property': pid, 'tier': tier, 'seed': seed, 'desc': desc, 'signature': viol['signature'],
+                       'what': viol['what'], 'repo': build.REPO}, f, indent=1, default=str)
     with open(os.path.join(d, 'detail.txt'), 'w') as f:
         f.write(str(viol['what']) + '\n\n' + (viol['detail'] if isinstance(viol['detail'], str)
                                                  else json.dumps(viol['detail'], indent=1, default=str)))
@@ -210,7 +228,15 @@ def main(modname, argv):
             sys.exit(1 if d['violations'] else (2 if d['status'] == 'inconclusive' else 0))
 
         rng = random.Random(args.seed * 1000003 + 17)
-        descs = list(mod.plan(args.tier, args.seed, rng, args.scale))
+        if hasattr(mod, 'prepare'):
+            shared = os.path.join(wroot, 'shared')
+            os.makedirs(shared, exist_ok=True)
+            try:
+                descs = list(mod.prepare(args.tier, args.seed, rng, args.scale, Ctx(bins, shared)))
+            except Inconclusive as e:
+                inconclusive('preparation failed: %s' % e)
+        else:
+            descs = list(mod.plan(args.tier, args.seed, rng, args.scale))
         budget = args.budget or mod.BUDGET.get(args.tier)
 
         evals = 0
